@@ -1,7 +1,7 @@
 (* Property C16 - only statements, each closed by [exact]. *)
 From Coq Require Import NArith List Bool.
 Import ListNotations.
-Require Import UV.Gen.Consts UV.C16.Model UV.C16.Proofs UV.C16.Frame UV.C16.Dirs UV.C16.Files UV.C16.Pick UV.C16.NoMix.
+Require Import UV.Gen.Consts UV.C16.Model UV.C16.Proofs UV.C16.Frame UV.C16.Dirs UV.C16.Files UV.C16.Pick UV.C16.NoMix UV.C16.Merge.
 Local Open Scope N_scope.
 
 (* read_all: for EVERY segmentation of the stream (chunks of any size, EINTRs in between) a request of
@@ -283,3 +283,20 @@ Theorem C16_last_piece_mod_refuted :
   concat (bad_pieces 4 [1; 2; 3; 4; 5; 6; 7; 8]) = [1; 2; 3; 4] /\ concat (bad_pieces 4 [1; 2; 3; 4]) = [].
 Proof. exact bad_pieces_loses_data. Qed.
 Print Assumptions C16_last_piece_mod_refuted.
+
+(* SEVERAL WRITER THREADS, ONE SOCKET: when messages are atomic on the wire (send_iov holds send_lock around
+   writev_all - fix c9aa763), ANY interleaving of the senders' whole messages stores the same content in every file,
+   provided every file is written by one sender (a task's buffers are handed to one writer at a time, in order).
+   With same_as_local the receiver's directory is the same for all of them.  The refuted variant - interleaving
+   inside a message - is C16_shared_socket_refuted. *)
+Theorem C16_writer_threads_any_interleaving : forall owner s m1 m2, owned_by owner s -> merge s m1 -> merge s m2 ->
+  forall f, flookup f (local_dir m1) = flookup f (local_dir m2).
+Proof. exact merges_same_files. Qed.
+Print Assumptions C16_writer_threads_any_interleaving.
+
+Theorem C16_writer_threads_nonvacuous :
+  owned_by owner_ex s_ex /\
+  merge s_ex [MData 11 [1]; MData 22 [3]; MData 22 [4]; MData 11 [2]] /\
+  merge s_ex [MData 22 [3]; MData 11 [1]; MData 11 [2]; MData 22 [4]].
+Proof. exact merge_ex. Qed.
+Print Assumptions C16_writer_threads_nonvacuous.
